@@ -75,12 +75,17 @@ def cases(rng, tier):
         logins = [l + [rng.choice([None, None, "https://s1.example.org/si.json", "https://s2.example.org/si.json", "https://evil.example/si.json"])] for l in logins]
         # a fifth element: just before this login the provider's state is exported and imported into a fresh instance
         logins = [l + [i > 0 and rng.random() < 0.12] for i, l in enumerate(logins)]
+        # a sixth element: the request spells its redirect_uri differently from the registered one (letter case of host / scheme): whether
+        # or not the provider takes that for a match, the subject of the user at that client is the same as in every other login
+        logins = [l + [rng.choice([None, None, None, None, "host-case", "scheme-case"])] for l in logins]
         out.append({"t": "seq", "logins": logins, "byscope": rng.random() < 0.5})
     return out
 
 
 def corpus():
-    return [{"t": "seq", "byscope": False, "logins": [["diana", "cP1", False, None, False], ["diana", "cW1", False, None, False], ["diana", "cP1", False, None, True],
+    return [{"t": "seq", "byscope": False, "logins": [["diana", "cW1", False, None, False, None], ["diana", "cW1", False, None, False, "host-case"], ["diana", "cW1", False, None, False, "scheme-case"],
+                                                      ["diana", "cW2", False, None, False, "host-case"], ["diana", "cW2", False, None, False, None]]},
+            {"t": "seq", "byscope": False, "logins": [["diana", "cP1", False, None, False], ["diana", "cW1", False, None, False], ["diana", "cP1", False, None, True],
                                                       ["diana", "cW1", False, None, False], ["diana", "cW2", False, None, True]]}]
 
 
@@ -105,6 +110,11 @@ def impl(c):
             az, tk, ui, it = (s.get_endpoint(x) for x in ("authorization", "token", "userinfo", "introspection"))
         ctx.authn_broker.db["anon"]["method"].user = user
         red = f"https://{cid.lower()}.example.com/cb"
+        spell = more[3] if len(more) > 3 else None
+        if spell == "host-case":
+            red = f"https://{cid.upper()}.Example.COM/cb"
+        elif spell == "scheme-case":
+            red = f"HTTPS://{cid.lower()}.example.com/cb"
         extra = {"sector_identifier_uri": req_sector} if req_sector else {}
         req = AuthorizationRequest(client_id=cid, redirect_uri=red, scope=["openid", "email"], state=f"st{n}", response_type="code", nonce=f"n{n}", **extra)
         try:
@@ -143,9 +153,11 @@ def model_lines(c, obs):
 def compare(c, obs, outs):
     d = []
     k = 0
-    for (user, cid, *_), r in zip(c["logins"], obs["logins"]):
+    for (user, cid, *more), r in zip(c["logins"], obs["logins"]):
         o = outs[k]; k += 1
         if r["r"] != "ok":
+            if len(more) > 3 and more[3]:
+                continue           # a differently spelled redirect_uri may be refused as a mismatch (C06's matter): no subject is delivered
             d.append(f"login {user}@{cid} failed: {r}"); break
         mv = [dec_str(x) for x in outs[k].split("\t")]; k += 1
         iv = [r["views"][x] for x in ("id_token", "userinfo", "jwt_access", "introspection")]
